@@ -3648,6 +3648,10 @@ class ControlConnection(object):
         Replace existing connection (if there is one) and close it.
         """
         with self._lock:
+            if self._is_shutdown:
+                # shutdown() ran while this connection was being established
+                conn.close()
+                return
             old = self._connection
             self._connection = conn
 
